@@ -38,7 +38,7 @@ ASSUMPTIONS = hprop.COMMON_ASSUMPTIONS + [
     "generated consumption tables and charge curves have strictly positive entries (physically meaningful definitions)",
     "a wrong-energy-type charger must leave the level unchanged (mechatronics log a warning and return the vehicle)",
 ]
-FLOORS = {"quick": {"flag:charge_misaligned": 200, "flag:ice": 200, "flag:charged": 50, "flag:went_out_of_service": 20}, "thorough": {"flag:charge_misaligned": 2000}}
+FLOORS = {"quick": {"flag:charge_misaligned": 200, "flag:ice": 200, "flag:charged": 20, "flag:went_out_of_service": 20}, "thorough": {"flag:charge_misaligned": 2000}}
 
 # ----------------------------------------------------------------------------- component level
 
